@@ -197,6 +197,13 @@ class Norm:
             return mk_add([a, mk_mul([('c', -1), b])])          # a - b as a sum (polynomial normal form; overflow is the panic inventory's business)
         if name == 'Div':
             if b[0] == 'c' and isinstance(b[1], float) and b[1] != 0 and is_pow2(b[1]): return mk_mul([a, ('c', 1.0 / b[1])])
+            if b[0] == 'c' and isinstance(b[1], int) and not isinstance(b[1], bool) and b[1] > 0:
+                # exact integer division of a monomial whose constant factor is a multiple of the divisor
+                k, m = _mono(a) if a[0] in ('*',) else ((a[1], ()) if a[0] == 'c' and isinstance(a[1], int) else (1, (a,)))
+                if isinstance(k, int) and not isinstance(k, bool) and k % b[1] == 0 and a[0] != '+':
+                    return mk_mul(list(m) + [('c', k // b[1])])
+                if a[0] == 'f' and a[1] == 'Div' and a[3][0] == 'c' and isinstance(a[3][1], int) and a[3][1] > 0:
+                    return self.op('Div', a[2], ('c', a[3][1] * b[1]))          # (x / c) / d = x / (c d) for unsigned x
             return ('f', 'Div', a, b)
         if name == 'Shl' and b[0] == 'c' and isinstance(b[1], int): return mk_mul([a, ('c', 1 << b[1])])
         if name == 'Shr' and b[0] == 'c' and isinstance(b[1], int): return ('f', 'Div', a, ('c', 1 << b[1]))      # operands here are unsigned sizes / indices
@@ -336,6 +343,53 @@ def find(t, pred, acc=None):
         for x in t:
             if isinstance(x, tuple): find(x, pred, acc)
     return acc
+
+
+# ---------------------------------------------------------------------------------------------------
+# tabulating closed forms
+def f32_exact(r):
+    """r has at most 24 significant bits (is an f32 value, so the f32 operation producing it did not round)"""
+    m, e = math.frexp(r)
+    return m * (1 << 24) == int(m * (1 << 24)) and abs(r) < 2.0 ** 120
+
+
+class NotExact(Exception):
+    pass
+
+
+def ev(t, env):
+    """value of a normalised term on concrete numbers (a finite table of a closed form; nothing of /repo is executed).
+    Floats model f32: every intermediate must be exactly representable (integers or halves below 2^24), else NotExact."""
+    k = t[0]
+    if k == 'c': return t[1]
+    if t in env: return env[t]
+    if k == '+': return sum(ev(x, env) for x in t[1:])
+    if k == '*':
+        r = 1
+        for x in t[1:]: r = r * ev(x, env)
+        if isinstance(r, float) and not f32_exact(r): raise NotExact(show(t))
+        return r
+    if k == 'f':
+        a = [ev(x, env) for x in t[2:]]
+        n = t[1]
+        if n == 'ceil': return float(math.ceil(a[0]))
+        if n == 'floor': return float(math.floor(a[0]))
+        if n == 'trunc': return int(a[0])
+        if n == 'divceil': return -((-a[0]) // a[1])
+        if n == 'Div':
+            if isinstance(a[0], float) or isinstance(a[1], float):
+                r = a[0] / a[1]
+                if not f32_exact(r): raise NotExact(show(t))
+                return r
+            return a[0] // a[1]
+        if n == 'Rem': return a[0] % a[1]
+        if n == 'Shr': return a[0] >> a[1]
+        if n == 'BitAnd': return a[0] & a[1]
+        if n == 'Sub': return a[0] - a[1]
+        if n == 'min': return min(a)
+        if n == 'max': return max(a)
+    raise Unanalysable('cannot tabulate %s' % show(t))
+
 
 
 # ---------------------------------------------------------------------------------------------------
